@@ -59,9 +59,33 @@ for d,site in (('to_polyhedron','nodal_data=self.nodal_data'),('to_facets','noda
     opn({'kind':'shared-table-modified','deriv':d},
         f"femio/fem_data.py {d}: {site}",
         f"{d}() hands the parent's variable table object (and the coordinate array) to the child: remove_useless_nodes() (or a writer that expands time series, or an in-place rotation / translation) on one of the two objects rewrites the other's data, whose queries then raise or answer for the wrong mesh")
+# ---- round 3: further history dependences of the unchanged tree (de7d55f)
+opn({'kind':'stale-lru','effect':'assign_nodes','memo_inventory':memo_pin},
+    'femio/fem_attribute.py data setter (fem_data.nodes.data = v): the attribute cannot reach the FEMData caches (only elements got an owner hook)',
+    "q(); fem_data.nodes.data = v (new array, or the held array edited and assigned back); q() returns the value memoised for the old coordinates (extract_surface positions, normals, jacobians, frame tensors, ...)")
+opn({'kind':'stale-slot','effect':'assign_nodes','slot_inventory':slot_pin},
+    "fem_data.nodes.data = v leaves elemental_data['area'|'volume'|'metric'] in place",
+    "calculate_element_areas|volumes|metrics() after assigning node coordinates return the stored values of the old coordinates")
+opn({'kind':'stale-lru','effect':'remove_useless_nodes','effect_raised':'KeyError','memo_inventory':memo_pin},
+    "femio/fem_data.py remove_useless_nodes: self.nodes is replaced, then value.loc[self.nodes.ids] raises KeyError for a nodal variable that lacks some node ids - before _clear_query_caches()",
+    "remove_useless_nodes() that raises midway leaves the mesh half updated (nodes replaced, later nodal variables not, caches not cleared): memoised queries keep answering for the old node set (proposed_fixes/C19_remove_useless_nodes_all_or_nothing.diff)")
+opn({'kind':'slot-partial','query':'calculate_element_volumes'},
+    "calculate_element_volumes(elements=<one type block>) / calculate_element_metrics(elements=...): `if update: _store_slot(elements.ids, 'volume', ...)` stores the partial result",
+    "calculate_element_volumes(elements=fem_data.elements['tet']) on a mixed mesh stores a 'volume' for that block only; a later calculate_element_volumes() returns the partial array (proposed_fixes/C19_partial_results_are_not_stored.diff)")
+for var, why in ((['elemental_data:volume'], "calculate_element_metrics (and everything that calls it: convert_elemental2nodal, integrate..., make_elements_positive) runs calculate_element_volumes(elements=..., update=True), which overwrites a user variable named 'volume' (proposed_fixes/C19_slots_do_not_overwrite_user_variables.diff)"),
+                 (['elemental_data:area'], "same through calculate_element_areas for shells (same proposed fix)"),
+                 (['elemental_data:degree'], "calculate_element_degree: update_data({'degree': ...}, allow_overwrite=True)"),
+                 (['elemental_data:normal'], "calculate_element_normals (also through calculate_jacobians): update_data({'normal': ...}, allow_overwrite=True)"),
+                 (['nodal_data:normal'], "calculate_surface_normals: nodal_data.update({'normal': ...})")):
+    opn({'kind':'query-overwrites-user-variable','variables':var},
+        "derived data is written under a fixed name with allow_overwrite / update",
+        f"a variable the user stored under the name {var[0].split(':')[1]!r} before the query is replaced by the derived one: {why}")
+
 # ---- entries repaired in /repo since they were triaged (fixed entries suppress nothing)
 def fixed_by(m):
     k, e = m.get('kind'), m.get('effect')
+    if m.get('effect_raised'):
+        return None
     if k in ('stale-lru', 'stale-derive') and e in ('remove_useless_nodes', 'rotation', 'translation'):
         return '1693b7f'
     if k == 'modifier-differs' and e in ('rotation', 'translation'):
